@@ -296,3 +296,97 @@ Definition serve (a : adapter) (segs be : list tok) (vals : list string) : robs 
   | Rejected _ => ORejected
   | Accepted pat _ => OPath (generate_path pat (router_params a (ph_names segs) vals))
   end.
+
+(* ---- the route text Init hands to the router (config/uri.go GetEndpointPath) ---------------- *)
+Definition qmark : ascii := ascii_of_N 63.
+Definition colon_c : ascii := ascii_of_N 58.
+(* strings.Split(result, "?") ... strings.Join(parts, "?"): only the text before the first '?'
+   is rewritten *)
+Fixpoint split_q (s : string) : string * string :=
+  match s with
+  | EmptyString => (EmptyString, EmptyString)
+  | String c r => if Ascii.eqb c qmark then (EmptyString, s)
+                  else let '(a, b) := split_q r in (String c a, b)
+  end.
+Definition colon_step (res p : string) : string :=
+  let '(a, b) := split_q res in
+  (replace_all (placeholder p) (String colon_c p) a ++ b)%string.
+(* colon mode (gin, httptreemux): every {p} becomes :p, parameter by parameter in the order of
+   declaration; brackets mode (chi, gorilla, negroni): the cleaned endpoint text as it is *)
+Definition route_pattern (colon : bool) (ep1 : string) (ins : list string) : string :=
+  if colon then fold_left colon_step ins ep1 else ep1.
+Definition init_route (colon : bool) (ep : string) : string :=
+  route_pattern colon (clean_path ep) (endpoint_params (clean_path ep)).
+Definition colon_mode (a : adapter) : bool :=
+  match a with Gin | Treemux => true | Chi | Gorilla | Negroni => false end.
+
+(* what the router is expected to be given for a tokenised endpoint *)
+Fixpoint render_route (colon : bool) (segs : list tok) : string :=
+  match segs with
+  | [] => EmptyString
+  | Lit s :: r => (String slash s ++ render_route colon r)%string
+  | Ph n :: r => (String slash (if colon then String colon_c n else placeholder n) ++ render_route colon r)%string
+  end.
+
+(* ---- a generic segment router (what gin, chi, gorilla, httptreemux do with the routes C09
+   speaks of: whole-segment parameters, no wildcards/regexps).  The third-party routers
+   themselves are validated by the correspondence run only; this model says what is assumed of
+   them and the theorems derive the extracted parameters from the route text Init produced. *)
+Fixpoint split_slash (s : string) : list string :=
+  match s with
+  | EmptyString => [EmptyString]
+  | String c r =>
+      if Ascii.eqb c slash then EmptyString :: split_slash r
+      else match split_slash r with
+           | x :: l => String c x :: l
+           | [] => [String c EmptyString]
+           end
+  end.
+(* a route segment that stands for a parameter: ":name" (colon mode), "{name}" (brackets) *)
+Definition seg_param (colon : bool) (seg : string) : option string :=
+  if colon then
+    match seg with
+    | String c n => if Ascii.eqb c colon_c then Some n else None
+    | EmptyString => None
+    end
+  else
+    match brace_at name_char seg with
+    | Some n => if str_eqb seg (placeholder n) then Some n else None
+    | None => None
+    end.
+Fixpoint match_segs (colon : bool) (rs ps : list string) : option (list (string * string)) :=
+  match rs, ps with
+  | [], [] => Some []
+  | r :: rs', p :: ps' =>
+      match seg_param colon r with
+      | Some n => if str_eqb p EmptyString then None
+                  else option_map (cons (n, p)) (match_segs colon rs' ps')
+      | None => if str_eqb r p then match_segs colon rs' ps' else None
+      end
+  | _, _ => None
+  end.
+Definition match_route (colon : bool) (route path : string) : option (list (string * string)) :=
+  match_segs colon (split_slash route) (split_slash path).
+
+(* the request path for given segment values *)
+Fixpoint request_path (segs : list tok) (vals : list string) : string :=
+  match segs with
+  | [] => EmptyString
+  | Lit s :: r => (String slash s ++ request_path r vals)%string
+  | Ph _ :: r => match vals with
+                 | v :: vs => (String slash v ++ request_path r vs)%string
+                 | [] => (String slash EmptyString ++ request_path r [])%string
+                 end
+  end.
+
+(* the whole chain with the router in it: Init (verdict, url_pattern, route text), the generic
+   router on the route text, the adapter's capitalisation, path generation *)
+Definition serve_routed (a : adapter) (segs be : list tok) (vals : list string) : robs :=
+  match init (render_ep segs) (render be) with
+  | Rejected _ => ORejected
+  | Accepted pat _ =>
+      match match_route (colon_mode a) (init_route (colon_mode a) (render_ep segs)) (request_path segs vals) with
+      | Some bound => OPath (generate_path pat (map (fun nv => (adapter_cap a (fst nv), snd nv)) bound))
+      | None => ONotRouted 404
+      end
+  end.
